@@ -94,6 +94,16 @@ func racePost(prop string) func(run *RunInfo, a *Agg) {
 func perturb(seed uint64, intensity int) func(string, *am.Func) {
 	var ctr uint64
 	return func(p string, f *am.Func) {
+		if p == "redefine.copy" {
+			// inside Redefine's locked copy of a function: widen that window
+			x := atomic.AddUint64(&ctr, 1)
+			if ((x^seed)*0x9e3779b97f4a7c15)>>61 < 3 {
+				time.Sleep(30 * time.Microsecond)
+			} else {
+				runtime.Gosched()
+			}
+			return
+		}
 		if !strings.HasPrefix(p, "direct.") {
 			return
 		}
@@ -598,35 +608,43 @@ func runC12(c *CaseCtx) (res CaseResult) {
 	}
 	w := NewWorld()
 	in := &Inst{W: w, S: s}
-	// shared option slice
-	var sharedOpts []am.Arg
+	// The shared option slice is built twice from the same underlying values
+	// and function objects: refOpts serves the sequential reference runs,
+	// sharedOpts is not applied by anybody before the goroutines start, so
+	// that first applications of every option value overlap.
+	sharedIDs := map[int]int64{}
 	for i, l := range s.Inputs {
 		if shared[i] {
-			id := w.FreshInput(-1, i, l)
-			n := l.Name
-			if n != "" {
-				n = mixCase(n, r)
-			}
-			sharedOpts = append(sharedOpts, am.NamedSubtype(n, mk(l.Type, id).Interface(), l.Sub))
+			sharedIDs[i] = w.FreshInput(-1, i, l)
 		}
 	}
-	// unrelated shared options exercising every constructor
-	sharedOpts = append(sharedOpts,
-		am.NamedSubtype("UnUsed", T5{ID: w.FreshInput(-1, 100, Label{Name: "unused", Type: 5, Sub: "zz"})}, "zz"),
-		am.TypedSubtype(T5{ID: w.FreshInput(-1, 101, Label{Type: 5, Sub: "zq"})}, "zq"),
-		am.Logger(hclog.New(&hclog.LoggerOptions{Level: hclog.Error})),
-		am.FuncName("shared"),
-		am.FilterInput(func(am.Value) bool { return true }),
-		am.FilterOutput(func(am.Value) bool { return true }),
-		am.ConverterGen(func(am.Value) (*am.Func, error) { return nil, nil }),
-	)
+	u1 := w.FreshInput(-1, 100, Label{Name: "unused", Type: 5, Sub: "zz"})
+	u2 := w.FreshInput(-1, 101, Label{Type: 5, Sub: "zq"})
+	withOnce := r.Intn(2) == 0
+	defShared := -1
 	if r.Intn(2) == 0 {
-		sharedOpts = append(sharedOpts, am.FuncOnce())
+		for i := range s.Inputs {
+			if shared[i] {
+				defShared = i
+				break
+			}
+		}
 	}
-	// target with default options (a shared constant input may live there)
-	var defOpts []am.Arg
-	if len(sharedOpts) > 0 && r.Intn(2) == 0 {
-		defOpts = append(defOpts, sharedOpts[0])
+	sharedInputOpt := func(i int, rr *rand.Rand) am.Arg {
+		l := s.Inputs[i]
+		n := l.Name
+		if n != "" {
+			n = mixCase(n, rr)
+		}
+		return am.NamedSubtype(n, mk(l.Type, sharedIDs[i]).Interface(), l.Sub)
+	}
+	// target with default options (a shared constant input may live there);
+	// World.Build hands them over in a slice with spare capacity: appending
+	// per-call options to the stored defaults in place would make concurrent
+	// calls overwrite each other's options
+	defOpts := []am.Arg{am.FuncName("shared-target")}
+	if defShared >= 0 {
+		defOpts = append(defOpts, sharedInputOpt(defShared, r))
 	}
 	t, err := w.Build(-1, s.Target, r, defOpts...)
 	if err != nil {
@@ -643,17 +661,50 @@ func runC12(c *CaseCtx) (res CaseResult) {
 		}
 		seenT[b.Type] = true
 		in.Convs = append(in.Convs, b)
-		switch {
-		case cs.Deliver == DelRaw && b.Raw != nil:
-			sharedOpts = append(sharedOpts, am.Converter(b.Raw))
-		case cs.Deliver == DelGen:
-			f := b.Func
-			sharedOpts = append(sharedOpts, am.ConverterGen(func(v am.Value) (*am.Func, error) { return f, nil }))
-		default:
-			sharedOpts = append(sharedOpts, am.ConverterFunc(b.Func))
-		}
 	}
-	r.Shuffle(len(sharedOpts), func(i, j int) { sharedOpts[i], sharedOpts[j] = sharedOpts[j], sharedOpts[i] })
+	oseed := r.Int63()
+	mkOpts := func() []am.Arg {
+		rr := rand.New(&splitmix{s: uint64(oseed)})
+		var o []am.Arg
+		for i := range s.Inputs {
+			if shared[i] {
+				o = append(o, sharedInputOpt(i, rr))
+			}
+		}
+		o = append(o,
+			am.NamedSubtype("UnUsed", T5{ID: u1}, "zz"),
+			am.TypedSubtype(T5{ID: u2}, "zq"),
+			am.Logger(hclog.New(&hclog.LoggerOptions{Level: hclog.Error})),
+			am.FuncName("shared"),
+			am.FilterInput(func(am.Value) bool { return true }),
+			am.FilterOutput(func(am.Value) bool { return true }),
+			am.ConverterGen(func(am.Value) (*am.Func, error) { return nil, nil }),
+		)
+		if withOnce {
+			o = append(o, am.FuncOnce())
+		}
+		// all raw converters travel in ONE Converter(...) option value
+		var raws []interface{}
+		for i, cs := range s.Convs {
+			b := in.Convs[i]
+			switch {
+			case cs.Deliver == DelRaw && b.Raw != nil && !cs.Once:
+				raws = append(raws, b.Raw)
+			case cs.Deliver == DelGen:
+				f := b.Func
+				o = append(o, am.ConverterGen(func(v am.Value) (*am.Func, error) { return f, nil }))
+			default:
+				o = append(o, am.ConverterFunc(b.Func))
+			}
+		}
+		if len(raws) > 0 {
+			o = append(o, am.Converter(raws...))
+		}
+		rr.Shuffle(len(o), func(i, j int) { o[i], o[j] = o[j], o[i] })
+		return o
+	}
+	refOpts := mkOpts()
+	sharedOpts := mkOpts()
 	ownArgs := func(call int) []am.Arg {
 		var a []am.Arg
 		for i, l := range s.Inputs {
@@ -663,19 +714,20 @@ func runC12(c *CaseCtx) (res CaseResult) {
 		}
 		return a
 	}
-	full := func(call int) []am.Arg {
-		return append(append([]am.Arg{}, sharedOpts...), ownArgs(call)...)
+	fullWith := func(opts []am.Arg, call int) []am.Arg {
+		return append(append([]am.Arg{}, opts...), ownArgs(call)...)
 	}
+	full := func(call int) []am.Arg { return fullWith(sharedOpts, call) }
 	// sequential references
-	refCall := DoCall(w, t.Func, full(900001))
+	refCall := DoCall(w, t.Func, fullWith(refOpts, 900001))
 	var convT int
 	if len(s.Target.In) > 0 {
 		convT = s.Target.In[0].Type
 	}
-	refConv := DoConvert(w, types[convT], full(900002))
+	refConv := DoConvert(w, types[convT], fullWith(refOpts, 900002))
 	// the inputs given to this Redefine are baked into the shared redefined
 	// function, hence shared constants (owner -1)
-	refRedef := DoRedefine(w, t.Func, full(-1))
+	refRedef := DoRedefine(w, t.Func, fullWith(refOpts, -1))
 	var sharedRF *am.Func
 	if refRedef.Func != nil && refRedef.Err == nil {
 		sharedRF = refRedef.Func
